@@ -23,6 +23,7 @@ PROP["jobs"].append({"harness": "h_stream", "comp": "pipe", "n_quick": 400, "n_t
                      "why": "a run of the real v1 node graph with a graceful stop at a random instant hangs, panics, or its trace (writes, acks, "
                             "teardown-time nacks) is not a behaviour of the v1 pipeline model"})
 
+PROP["lean_modules"].append("ConduitModel.Facts.Stream")
 import os as _os, sys as _sys
 _sys.path.insert(0, _os.path.dirname(__file__))
 from funnel_common import funnel_stop_job
